@@ -317,6 +317,13 @@ def elem_lt(a, b):
 
 
 def elem_ite(c, a, b):
+    if type(a) is not type(b):
+        # arrays decoded from mixed sources (exact-integer voxels next to concrete bytes)
+        if isinstance(a, SIV) or isinstance(b, SIV):
+            a = a if isinstance(a, SIV) else _to_siv(a, b.dtype)
+            b = b if isinstance(b, SIV) else _to_siv(b, a.dtype)
+        else:
+            b = _like(b, a)
     if isinstance(a, SBV):
         return SBV(z3.simplify(z3.If(c, a.e, b.e)), a.dtype)
     if isinstance(a, SIV):
@@ -327,6 +334,15 @@ def elem_ite(c, a, b):
         x, y, e, nb = a._align(b)
         return SDy(z3.simplify(z3.If(c, x, y)), e, nb, a.dtype, chk=False)
     raise OutsideModel("ite over unsupported element kind")
+
+
+def _to_siv(x, dtype):
+    if isinstance(x, SBV):
+        v = z3.simplify(x.e)
+        if z3.is_bv_value(v):
+            return SIV(z3.IntVal(v.as_signed_long() if x.signed else v.as_long()), dtype)
+        return SIV(z3.BV2Int(x.e, x.signed), dtype)
+    raise OutsideModel(f"cannot view {type(x).__name__} as an exact integer element")
 
 
 def _like(new, old):
